@@ -8,10 +8,10 @@ use std::process::{Command, Stdio};
 
 use serde_json::json;
 
-use crate::rt::{Ctx, VERIF_DIR, Violation};
+use crate::rt::{Ctx, Violation};
 
 fn harness_dir() -> PathBuf {
-    Path::new(VERIF_DIR).join("harness")
+    crate::rt::verif_dir().join("harness")
 }
 
 pub fn campaign(ctx: &Ctx, target: &str, default_secs: u64) {
@@ -113,7 +113,7 @@ pub fn campaign(ctx: &Ctx, target: &str, default_secs: u64) {
     );
     if let Some((path, why)) = crash {
         // keep the artifact as a replay file
-        let dir = Path::new(VERIF_DIR).join("replays").join(&ctx.id);
+        let dir = crate::rt::verif_dir().join("replays").join(&ctx.id);
         let _ = std::fs::create_dir_all(&dir);
         let dest = dir.join(format!("fuzz-{}-{}.bin", target, path.file_name().and_then(|x| x.to_str()).unwrap_or("artifact")));
         let _ = std::fs::copy(&path, &dest);
